@@ -149,6 +149,38 @@ Theorem fuel_irrelevant : forall fuel fs m top,
 Proof. exact fuel_irrelevant_l. Qed.
 Print Assumptions fuel_irrelevant.
 
+(* the flattened document consists of real lines: every visit names an existing file and the
+   number of a line in it that is a \citation / \bibstyle / \bibdata line with that value *)
+Theorem visits_stand : forall fuel fs top v, In v (doc_visits fuel fs top) -> stands_in fs v.
+Proof. exact visits_stand_top. Qed.
+Print Assumptions visits_stand.
+
+(* hence every reported error names the file and the line of a command line of the document *)
+Theorem reported_errors_located : forall fuel fs m top,
+  m <> Strict ->
+  match parse_aux fuel fs m top with
+  | Ret a | Raise _ a =>
+    forall e, In e (a_errs a) ->
+    exists v, In v (doc_visits fuel fs top) /\ e_ctx e = Some (ctx_of v) /\ stands_in fs v
+  | _ => True
+  end.
+Proof. exact reported_errors_located_l. Qed.
+Print Assumptions reported_errors_located.
+
+(* Engine.make_bibliography hands on what was read: the \bibdata names with the format's suffix,
+   the \bibstyle unless a style is given, the citations *)
+Theorem make_bibliography_spec : forall fuel fs top a style_arg suffix,
+  parse_aux fuel fs Strict top = Ret a ->
+  exists vd vs b,
+    find (is_cmd CBibdata) (doc_visits fuel fs top) = Some vd /\
+    find (is_cmd CBibstyle) (doc_visits fuel fs top) = Some vs /\
+    make_bibliography_args style_arg suffix a = Ret b /\
+    b_files b = map (fun f => f ++ suffix) (split_on [c_comma] (v_val vd)) /\
+    b_style b = Some (match style_arg with Some s => s | None => v_val vs end) /\
+    b_citations b = citation_keys (doc_visits fuel fs top).
+Proof. exact make_bibliography_spec_l. Qed.
+Print Assumptions make_bibliography_spec.
+
 (* ---- non-vacuity: a document with a nested file, a second \bibstyle and \bibdata after the
    return from it, and a key cited in two spellings across the file boundary *)
 Example ex_read :
